@@ -17,7 +17,8 @@ Addressing conventions (BLAS):
 The second half of the file is the *specification table* SPEC (arguments, flag domains, integer domains,
 documented default formulas, extents, output argument) and DOC (the argument descriptions transcribed from the
 docstrings in src/C/blas.c, whitespace-normalised); `doc_selfcheck` compares DOC and SPEC with the `__doc__`
-of the wrappers that are actually under test.
+of the wrappers that are actually under test; `predict` is the model of the documented argument handling
+(defaults, domains, buffer-size consistency) and `footprint` gives the sets of indices read / written.
 """
 import math
 import re
@@ -1536,3 +1537,63 @@ def apply(f, env, kw, bufs):
     if sp['ret'] is not None:
         return r, new, {}
     return None, new, {sp['out'][0]: r}
+
+
+# =====================================================================================================
+#                       FOOTPRINTS: buffer indices read / written by a valid call
+# =====================================================================================================
+# storage scheme of every matrix-kind ('M') array: ge general, sy symmetric/Hermitian triangle, tr triangular,
+# gb general band, sb symmetric/Hermitian band, tb triangular band
+STORAGE = {
+    'gemv': {'A': 'ge'}, 'gbmv': {'A': 'gb'}, 'symv': {'A': 'sy'}, 'hemv': {'A': 'sy'}, 'sbmv': {'A': 'sb'},
+    'hbmv': {'A': 'sb'}, 'trmv': {'A': 'tr'}, 'trsv': {'A': 'tr'}, 'tbmv': {'A': 'tb'}, 'tbsv': {'A': 'tb'},
+    'ger': {'A': 'ge'}, 'geru': {'A': 'ge'}, 'syr': {'A': 'sy'}, 'her': {'A': 'sy'}, 'syr2': {'A': 'sy'},
+    'her2': {'A': 'sy'}, 'gemm': {'A': 'ge', 'B': 'ge', 'C': 'ge'}, 'symm': {'A': 'sy', 'B': 'ge', 'C': 'ge'},
+    'hemm': {'A': 'sy', 'B': 'ge', 'C': 'ge'}, 'syrk': {'A': 'ge', 'C': 'sy'}, 'herk': {'A': 'ge', 'C': 'sy'},
+    'syr2k': {'A': 'ge', 'B': 'ge', 'C': 'sy'}, 'her2k': {'A': 'ge', 'B': 'ge', 'C': 'sy'},
+    'trmm': {'A': 'tr', 'B': 'ge'}, 'trsm': {'A': 'tr', 'B': 'ge'},
+}
+
+
+def footprint(f, env):
+    """{'read': {arg: set(indices)}, 'write': {arg: set(indices)}} of a *valid* call with effective arguments env
+    (as returned by predict()['env']).  'read' lists the positions whose value can influence the result (with
+    generic scalars; e.g. C is listed as read although beta=0 makes it irrelevant)."""
+    sp = SPEC[f]
+    cells = {}
+    for m, a in sp['arrays'].items():
+        if a[0] == 'V':
+            cells[m] = set(vidx(max(0, _ev(a[1], env)), env[a[2]], env[a[3]]))
+            continue
+        rows, cols, ld, off = max(0, _ev(a[1], env)), max(0, _ev(a[2], env)), env[a[3]], env[a[4]]
+        kind = STORAGE[f][m]
+        if rows == 0 or cols == 0:
+            cells[m] = set()
+        elif kind == 'ge':
+            cells[m] = ge_idx(rows, cols, ld, off)
+        elif kind in ('sy', 'tr'):
+            s = tri_idx(cols, ld, off, env['uplo'])
+            if kind == 'tr' and env.get('diag') == 'U':
+                s -= set(off + i * (ld + 1) for i in range(cols))
+            cells[m] = s
+        elif kind == 'gb':
+            mm, kl, ku = env['m'], env['kl'], env['ku']
+            cells[m] = set(off + (ku + i - j) + j * ld for j in range(cols)
+                           for i in range(max(0, j - ku), min(mm - 1, j + kl) + 1))
+        else:
+            k, n, uplo = env['k'], cols, env['uplo']
+            s = set()
+            for j in range(n):
+                rng = range(j, min(n - 1, j + k) + 1) if uplo == 'L' else range(max(0, j - k), j + 1)
+                for i in rng:
+                    if not (kind == 'tb' and env.get('diag') == 'U' and i == j):
+                        s.add(_band_pos(i, j, k, ld, off, uplo))
+            cells[m] = s
+    vac = bool(sp['out']) and sp['ret'] is None and all(not cells[m] for m in sp['out'])
+    if vac:
+        return {'read': dict((m, set()) for m in sp['mats']), 'write': dict((m, set()) for m in sp['mats'])}
+    write = dict((m, (cells[m] if m in sp['out'] else set())) for m in sp['mats'])
+    read = dict(cells)
+    if f == 'copy':
+        read['y'] = set()
+    return {'read': read, 'write': write}
